@@ -145,12 +145,20 @@ def field (w : Win) (base : Nat) (chunk : Bool) (align size off : Nat) (k : Nat 
   | .panic => .done (.error .invalidParam)   -- not reachable for the drivers' aligned fields
 
 /-- block capacity and vsock guest CID: `u32` at 0, `u32` at 4, combined to 64 bits -/
-def progU64 (w : Win) (base : Nat) (chunk : Bool) : CProg :=
-  field w base chunk 4 4 0 fun lo => field w base chunk 4 4 4 fun hi => .done (.ok (lo + hi * 2 ^ 32))
+def progU64 (w : Win) (base : Nat) (chunk : Bool) (swap : Bool := false) : CProg :=
+  -- `swap`: the closure reads the upper half first (the order of the two reads is the driver's
+  -- choice; the harness reports the order it observed on an undisturbed run)
+  if swap then
+    field w base chunk 4 4 4 fun hi => field w base chunk 4 4 0 fun lo => .done (.ok (lo + hi * 2 ^ 32))
+  else
+    field w base chunk 4 4 0 fun lo => field w base chunk 4 4 4 fun hi => .done (.ok (lo + hi * 2 ^ 32))
 
 /-- console size: `cols: u16` at 0, `rows: u16` at 2 (canonical value `cols + 65536·rows`) -/
-def progConsole (w : Win) (base : Nat) (chunk : Bool) : CProg :=
-  field w base chunk 2 2 0 fun cols => field w base chunk 2 2 2 fun rows => .done (.ok (cols + rows * 2 ^ 16))
+def progConsole (w : Win) (base : Nat) (chunk : Bool) (swap : Bool := false) : CProg :=
+  if swap then
+    field w base chunk 2 2 2 fun rows => field w base chunk 2 2 0 fun cols => .done (.ok (cols + rows * 2 ^ 16))
+  else
+    field w base chunk 2 2 0 fun cols => field w base chunk 2 2 2 fun rows => .done (.ok (cols + rows * 2 ^ 16))
 
 /-- MAC address: one `[u8; 6]` at 0 (two bus accesses, 4 + 2 bytes, on a real transport) -/
 def progMac (w : Win) (base : Nat) (chunk : Bool) : CProg :=
@@ -208,13 +216,17 @@ def handle (op : String) (a : Proto.Args) : String :=
     | .ok l => s!"ok {accStr (a.bool "w") l}"
     | .tooSmall => "err ConfigSpaceTooSmall"
     | .missing => "err ConfigSpaceMissing"
-    | .panic => "panic"
+    | .panic =>
+      -- `off + size` overflows `usize`: refused without an access, by the overflow check (panic) or,
+      -- in a hardened implementation, by an error; the harness prints the same word for both
+      if a.nat "align" ≤ 4 ∧ a.nat "off" % a.nat "align" = 0 ∧ USIZE ≤ a.nat "off" + a.nat "size" then "refused-overflow"
+      else "panic"
   | "pci_new" => if pciNewOk (a.nat "present" != 0) (a.nat "caplen") then "ok" else "err BarOffsetOutOfRange"
   | "consistent" =>
     let chunk := a.str "gran" != "field"
     let p : CProg := match a.str "prog" with
-      | "u64" => progU64 w base chunk
-      | "console" => progConsole w base chunk
+      | "u64" => progU64 w base chunk (a.bool "swap")
+      | "console" => progConsole w base chunk (a.bool "swap")
       | "mac" => progMac w base chunk
       | _ => progTag w base chunk
     let at_ := a.nats "at"
